@@ -179,6 +179,29 @@ FIFTH ROUND: rules added after the false-alarm campaign (behaviour-preserving re
                binary_rule(n, R, scheme='nks') outside C07 (the model's nks_rule n R);
                `not isinstance(..)` on the tagged rule argument.
 
+SIXTH ROUND
+
+  threaded     a module-level function with a dict parameter it mutates and a rule callable (`threaded=`; used for
+  parameters   _get_memoized): translated as a state-passing function  rs_ -> args -> table -> ((rs_', table'), result)
+               over an association list; the rule is the generic parameter apply_rule : St -> NB -> cell -> nat -> St * Z
+               whose state rs_ is threaded (`apply_rule(n, c, t)` -> let '(rs_, v) := apply_rule rs_ n c t);
+               n.tobytes() -> nb_key n, a generic parameter: the TRUSTED abstraction of the cache key (for one dtype and
+               one shape, byte equality is equality of the cell values; a MaskedArray is filled before it is serialised);
+               `if K in D: A else: B` / `K not in D` / `not K in D` -> match src_dict_lookup K D with Some v => A | None => B;
+               D[K] is only translated where its value is known (inside the Some branch: v; after `D[K] = e`: e);
+               `D[K] = e` -> src_dict_set K e D (replaces or adds, so that len(D) is the number of entries);
+               `X = D.get(K, S); if X is S: A else: B` with S a module-level `object()` sentinel -> the same match.
+  constants    NAME = <integer constant expression> at module level, bound exactly once (also through
+               `from .sibling import NAME`): its value.
+  methods      `self._m(args)` where _m is a method of the same class that is not a declared target and writes nothing:
+               translated on the fly like a module-level helper (src_h_<m>, with the attributes of the calling target);
+               self._grain_additions may be ITERATED by any method (pure read), only add_grain may change it;
+               any(<test> for g in self._grain_additions) -> existsb.
+  C17          ''.join(str(x) for x in nb) on a neighbourhood of non-negative ints -> the model's state_repr; a table with
+               string keys is the model's association list with its lookup (same membership rules as above).
+  names        a local / parameter named like a template identifier (key, table, lookup, state_repr, N, ...) or a Coq
+               keyword is the binder py_<name>.
+
 The parameter types of each target (which name is the 3x3 block, which the cell index, ...) are declared in TARGETS
 below: they are assumptions about how the library calls the function, not read from the source.
 
@@ -232,9 +255,11 @@ BIT, BITS, BITINT = 'bit', 'bits', 'bitint'
 MATRIX = 'matrix'
 ARRVIEW, DIGITS, DIGIT = 'arrview', 'digits', 'digit'
 BOOLMATRIX = 'list:list:bool'
+DICTK, CALLP = 'dictk', 'callp'
+NATLIST, SKEY, SDICT = 'natlist', 'skey', 'sdict'
 SYM, SYM2, SYMLIST, SYMLIST2 = 'sym', 'sym2', 'list:sym', 'list:sym2'
 ROWS = 'list:zlist'            # a Python list (or array) of rows
-COQ_TYPE.update({'bool': 'bool', SYM: 'A', SYM2: 'B', DIGITS: 'list N', DIGIT: 'N', MATRIX: 'list (list Z)', BIT: 'bool', BITS: 'list bool', BITINT: 'bool', 'list:bitint': 'list bool', OPTZLIST: 'option (list Z)', RULEFORM: 'rule_form', SCHEME: 'scheme', STATE: 'S'})
+COQ_TYPE.update({NATLIST: 'list nat', SKEY: 'key', SDICT: 'table', DICTK: 'list (list Z * Z)', 'bool': 'bool', SYM: 'A', SYM2: 'B', DIGITS: 'list N', DIGIT: 'N', MATRIX: 'list (list Z)', BIT: 'bool', BITS: 'list bool', BITINT: 'bool', 'list:bitint': 'list bool', OPTZLIST: 'option (list Z)', RULEFORM: 'rule_form', SCHEME: 'scheme', STATE: 'S'})
 
 
 def elem_type(ty):
@@ -292,7 +317,7 @@ def _split_pair(ty):
 COQ_KEYWORDS = set('as at cofix else end exists exists2 fix for forall fun if IF in let match mod return Set Prop '
                    'SProp Type then using where with'.split())
 # identifiers that the templates emit: a Python local of that name would capture them
-TEMPLATE_NAMES = set('Next Break xorb rev firstn skipn removelast filter map combine seq repeat hd nth length concat zsum fold_left existsb negb fst snd bind Ok Raise Some None true false '
+TEMPLATE_NAMES = set('state_repr lookup table key uniform tset Next Break xorb rev firstn skipn removelast filter map combine seq repeat hd nth length concat zsum fold_left existsb negb fst snd bind Ok Raise Some None true false '
                      'ValueError IndexError py_get Z N nat list option bool st vec_read vec_write cfg_eqb C S '
                      'nks_rule andb orb xorb'.split())
 
@@ -544,20 +569,38 @@ def _c10_block_stmts(fn):
     first = [i for i, st in enumerate(b) if isinstance(st, ast.Assign)
              and ast.unparse(st.value) == 'list(range(len(initial_conditions)))']
     loops = [st for st in b if isinstance(st, ast.For) and ast.unparse(st.iter) == 'range(1, timesteps)']
+    even = odd = None
+    # the schedule written as  S = itertools.cycle((O, E)); for t, strides in zip(range(1, timesteps), S):  -- the cycle
+    # starts with O at t = 1, so O is used at odd t and E at even t, as in `E if t % 2 == 0 else O`
+    cyc = [st for st in b if isinstance(st, ast.Assign) and len(st.targets) == 1 and isinstance(st.targets[0], ast.Name)
+           and isinstance(st.value, ast.Call) and ast.unparse(st.value.func) == 'itertools.cycle'
+           and len(st.value.args) == 1 and isinstance(st.value.args[0], ast.Tuple) and len(st.value.args[0].elts) == 2
+           and all(isinstance(x, ast.Name) for x in st.value.args[0].elts)]
+    if not loops and len(cyc) == 1:
+        S = cyc[0].targets[0].id
+        zl = [st for st in b if isinstance(st, ast.For) and ast.unparse(st.iter) == 'zip(range(1, timesteps), %s)' % S]
+        uses = [n for n in ast.walk(ast.Module(body=b, type_ignores=[])) if isinstance(n, ast.Name) and n.id == S]
+        if len(zl) == 1 and len(uses) == 2:
+            odd, even = (x.id for x in cyc[0].value.args[0].elts)
+            loops = zl
     if len(first) != 1 or len(loops) != 1:
         raise TranslationError('`X = list(range(len(initial_conditions)))` / the loop over range(1, timesteps) not found')
-    even = odd = None
-    for st in loops[0].body:
+    for st in ([] if even is not None else loops[0].body):
         if isinstance(st, ast.Assign) and isinstance(st.value, ast.IfExp) and ast.unparse(st.value.test) == 't % 2 == 0' \
                 and isinstance(st.value.body, ast.Name) and isinstance(st.value.orelse, ast.Name):
             even, odd = st.value.body.id, st.value.orelse.id
+        # S = (E, O)[t % 2]: index 0 at even t
+        if isinstance(st, ast.Assign) and isinstance(st.value, ast.Subscript) and ast.unparse(st.value.slice) == 't % 2' \
+                and isinstance(st.value.value, ast.Tuple) and len(st.value.value.elts) == 2 \
+                and all(isinstance(x, ast.Name) for x in st.value.value.elts):
+            even, odd = (x.id for x in st.value.value.elts)
         if isinstance(st, ast.If) and ast.unparse(st.test) == 't % 2 == 0' and len(st.body) == 1 and len(st.orelse) == 1 \
                 and isinstance(st.body[0], ast.Assign) and isinstance(st.orelse[0], ast.Assign) \
                 and ast.unparse(st.body[0].targets[0]) == ast.unparse(st.orelse[0].targets[0]) \
                 and isinstance(st.body[0].value, ast.Name) and isinstance(st.orelse[0].value, ast.Name):
             even, odd = st.body[0].value.id, st.orelse[0].value.id
     if even is None:
-        raise TranslationError('the alternation `E if t % 2 == 0 else O` was not found in the time loop')
+        raise TranslationError('the alternation `E if t % 2 == 0 else O` (or itertools.cycle((O, E))) was not found')
 
     def is_assign(st, name):
         return isinstance(st, ast.Assign) and len(st.targets) == 1 and ast.unparse(st.targets[0]) == name
@@ -633,6 +676,7 @@ def _c03_split_stmts(fn):
     raise TranslationError('the two halves handed to _update_state were not found')
 
 
+_MEMOG = '{NB cell St : Type} (nb_key : NB -> list Z) (apply_rule : St -> NB -> cell -> nat -> St * Z)'
 _SYMG = '{A : Type} (sym_dec : forall a b : A, {a = b} + {a <> b})'
 _SYMG2 = _SYMG + ' {B : Type} (sym2_dec : forall a b : B, {a = b} + {a <> b})'
 
@@ -720,6 +764,20 @@ TARGETS = [
     dict(name='memo_split', prop='C03', file='ca_functions.py', cls=None, func='_step',
          locate_stmts=_c03_split_stmts, what='that split indices into left_indices and right_indices',
          free=[('indices', ZLIST)], returns=['left_indices', 'right_indices'], params=[], attrs=[]),
+    dict(name='get_memoized', prop='C09', file='ca_functions.py', cls=None, func='_get_memoized',
+         params=[('n', ANB), ('c', ACELL), ('t', TNAT), ('apply_rule', CALLP), ('memoization_table', DICTK)], attrs=[],
+         generic=_MEMOG, threaded=dict(table='memoization_table', callable='apply_rule', sig=[ANB, ACELL, TNAT])),
+    dict(name='get_memoized', prop='C03', file='ca_functions.py', cls=None, func='_get_memoized',
+         params=[('n', ANB), ('c', ACELL), ('t', TNAT), ('apply_rule', CALLP), ('memoization_table', DICTK)], attrs=[],
+         generic=_MEMOG, threaded=dict(table='memoization_table', callable='apply_rule', sig=[ANB, ACELL, TNAT])),
+    dict(name='get_memoized', prop='C04', file='ca_functions2d.py', cls=None, func='_get_memoized',
+         params=[('n', ANB), ('c', ACELL), ('t', TNAT), ('apply_rule', CALLP), ('memoization_table', DICTK)], attrs=[],
+         generic=_MEMOG, threaded=dict(table='memoization_table', callable='apply_rule', sig=[ANB, ACELL, TNAT])),
+    dict(name='get_memoized2d', prop='C09', file='ca_functions2d.py', cls=None, func='_get_memoized',
+         params=[('n', ANB), ('c', ACELL), ('t', TNAT), ('apply_rule', CALLP), ('memoization_table', DICTK)], attrs=[],
+         generic=_MEMOG, threaded=dict(table='memoization_table', callable='apply_rule', sig=[ANB, ACELL, TNAT])),
+    dict(name='table_rule', prop='C17', file='rule_tables.py', cls=None, func='table_rule',
+         params=[('neighbourhood', NATLIST), ('table', SDICT)], attrs=[], effects=True),
     dict(name='hopfield_train', prop='C20', file='hopfield_net.py', cls='HopfieldNet', func='train',
          params=[('P', ROWS)], attrs=[], effects=True, attr_locals={'_W': MATRIX}),
     dict(name='hopfield_rule', prop='C20', file='hopfield_net.py', cls='HopfieldNet', func='_rule',
@@ -829,6 +887,20 @@ Definition src_as_strided_windows {A} (l : list A) (w : Z) : res (list (list A))
 Definition src_take_wrap (a idx : list Z) : res (list Z) :=
   if (length a =? 0)%nat && negb (length idx =? 0)%nat then Raise IndexError
   else Ok (map (fun i => nth (Z.to_nat (i mod Z.of_nat (length a))) a 0) idx).
+(* a dict whose keys are byte strings (lists of cell values): `k in d` / `d[k]` = first match; `d[k] = v` replaces the
+   entry of k or adds one (so that len(d) is the number of entries) *)
+Fixpoint src_dict_lookup (k : list Z) (d : list (list Z * Z)) : option Z :=
+  match d with
+  | [] => None
+  | (k', v) :: d' => if list_eqb Z.eqb k k' then Some v else src_dict_lookup k d'
+  end.
+Fixpoint src_dict_replace (k : list Z) (v : Z) (d : list (list Z * Z)) : list (list Z * Z) :=
+  match d with
+  | [] => []
+  | (k', v') :: d' => if list_eqb Z.eqb k k' then (k', v) :: d' else (k', v') :: src_dict_replace k v d'
+  end.
+Definition src_dict_set (k : list Z) (v : Z) (d : list (list Z * Z)) : list (list Z * Z) :=
+  match src_dict_lookup k d with Some _ => src_dict_replace k v d | None => (k, v) :: d end.
 (* a loop whose body can raise, break or continue: the accumulator is threaded through the body *)
 Inductive src_ctl (A : Type) := Next (a : A) | Break (a : A).
 Arguments Next {A} a.
@@ -962,6 +1034,7 @@ class Env:
         self.nonneg = set()           # int locals known to be >= 0 (indices of range / enumerate)
         self.pylists = set()          # locals bound to Python lists (not ndarrays)
         self.loop_acc = None          # inside a loop translated with src_for: the text of its accumulator
+        self.known = {}               # (dict local, key local) -> text of the value d[k] is known to hold here
         self.positive = set()         # int locals known to be > 0 (a guard before the fragment raises otherwise)
         self.alias = {}               # free locals of a fragment whose Python name is not usable in Coq: name -> py_name
 
@@ -976,6 +1049,7 @@ class Env:
         e.loop_acc = self.loop_acc
         e.alias = self.alias
         e.positive = set(self.positive)
+        e.known = dict(self.known)
         return e
 
 
@@ -1036,12 +1110,16 @@ class FunTrans:
                 v = 'None' if k == 'none' else (tx if k == OPTZ else '(Some %s)' % tx)
             else:
                 v = tx
+            if self.t.get('threaded'):
+                v = '((rs_, %s), %s)' % (self.t['threaded']['table'], v)
             if self.stateful or self.mutating:
                 v = '(st, %s)' % v
             if self.effects:
                 v = '(Ok %s)' % v
             text = text.replace('\x00RET%d\x00' % i, v)
         cty = coq_type(rty)
+        if self.t.get('threaded'):
+            cty = '((St * %s) * %s)' % (COQ_TYPE[DICTK], cty)
         self.rty = rty
         if self.stateful:
             cty = '(S * %s)' % cty
@@ -1076,6 +1154,9 @@ class FunTrans:
             _err(e, 'constant %r is outside the subset' % (e.value,))
         if isinstance(e, ast.Name):
             if e.id not in env.vars:
+                c = self.mod.module_constant(e.id)
+                if c is not None:
+                    return _zlit(c), Z          # a module-level integer constant (assigned once, never re-bound)
                 _err(e, 'name %r is not a local known at this point' % e.id)
             ty = env.vars[e.id]
             if ty == UNUSED:
@@ -1399,6 +1480,11 @@ class FunTrans:
     def subscript(self, e, env):
         if isinstance(e.slice, ast.Slice):
             return self.slice_expr(e, env)
+        if isinstance(e.value, ast.Name) and env.vars.get(e.value.id) in (DICTK, SDICT) and isinstance(e.slice, ast.Name):
+            kv = env.known.get((e.value.id, e.slice.id))
+            if kv is None:
+                _err(e, '%s[%s] is read where the key is not known to be present' % (e.value.id, e.slice.id))
+            return kv, Z
         # self._W[a, b] on a matrix attribute: NumPy indexing (negative indices, IndexError)
         al = self.t.get('attr_locals') or {}
         if _is_self_attr(e.value) and isinstance(e.slice, ast.Tuple) and len(e.slice.elts) == 2 and (
@@ -1478,6 +1564,25 @@ class FunTrans:
 
     def call(self, e, env):
         f = e.func
+        th = self.t.get('threaded')
+        # n.tobytes() on the neighbourhood: its cache key, the parameter nb_key (TRUSTED abstraction: for one dtype and
+        # one shape byte equality is equality of the cell values; a MaskedArray is filled before it is serialised, so
+        # masked cells do not reach the key)
+        if th and isinstance(f, ast.Attribute) and f.attr == 'tobytes' and not e.args and not e.keywords \
+                and isinstance(f.value, ast.Name) and env.vars.get(f.value.id) == ANB:
+            return '(nb_key %s)' % f.value.id, ZLIST
+        # apply_rule(n, c, t): the rule is a state machine St -> .. -> St * Z; its state rs_ is threaded
+        if th and isinstance(f, ast.Name) and f.id == th['callable'] and env.vars.get(f.id) == CALLP:
+            if env.noeffect:
+                _err(e, 'call of the rule inside a short-circuit position')
+            args = self.call_args(e, env, th['sig'], f.id)
+            self.fresh += 1
+            k_ = self.fresh
+            env.binds.append(("let:'(rs_, v_%d)" % k_, '%s rs_ %s' % (th['callable'], ' '.join(args))))
+            return 'v_%d' % k_, Z
+        if th and isinstance(f, ast.Name) and f.id == 'len' and len(e.args) == 1 and isinstance(e.args[0], ast.Name) \
+                and env.vars.get(e.args[0].id) == DICTK:
+            return '(Z.of_nat (length %s))' % e.args[0].id, Z
         # a.take(idx, mode='wrap') on a 1-D array: element i mod len(a) for every index (IndexError for a non-empty
         # take from an empty array)
         if isinstance(f, ast.Attribute) and f.attr == 'take' and len(e.args) == 1 and len(e.keywords) == 1 \
@@ -1610,6 +1715,12 @@ class FunTrans:
         # self._method(args)
         if _is_self_attr(f):
             callee = self.mod.method_target(self.t.get('cls'), f.attr)
+            if callee is None and self.clsnode is not None and not e.keywords:
+                # a private method of the same class that is not a declared target (extracted from a target):
+                # translated on the fly like a module-level helper, with the attributes of the calling target
+                meths = [m for m in self.clsnode.body if isinstance(m, ast.FunctionDef) and m.name == f.attr]
+                if len(meths) == 1:
+                    return self.inline_method(e, meths[0], env)
             if callee is None:
                 _err(e, 'self.%s(...) is not a translated method' % f.attr)
             if len(e.args) != len(callee['params']):
@@ -1710,6 +1821,19 @@ class FunTrans:
                 and isinstance(e.args[0], (ast.ListComp, ast.GeneratorExp)) and len(e.args[0].generators) == 1 \
                 and not e.args[0].generators[0].ifs:
             g = e.args[0].generators[0]
+            if _is_self_attr(g.iter) and self.attr_info.get(g.iter.attr) == ADDS and g.iter.attr in self.t['attrs'] \
+                    and isinstance(g.target, ast.Name):
+                # any(<test> for g in self._grain_additions): the scan, as in the loop form
+                x = _check_ident(g.target, g.target.id)
+                if x in env.vars:
+                    _err(e, 'generator variable %r shadows a local' % x)
+                inner = env.copy()
+                inner.vars[x] = ADD
+                inner.noeffect = 1
+                b, tb = self.expr(e.args[0].elt, inner)
+                if tb != BOOL:
+                    _err(e, 'any(..) over non-boolean elements')
+                return '(existsb (fun %s => %s) self%s)' % (x, b, g.iter.attr), BOOL
             lst, ety, nonneg = self.iter_source(g.iter, env)
             pat, newvars, nn = self.bind_pattern(g.target, ety, env, nonneg)
             inner = env.copy()
@@ -1740,6 +1864,16 @@ class FunTrans:
             ast.copy_location(lc, e.args[0])
             l, tl = self.expr(lc, env)
             return '(Z.of_nat (length %s))' % l, Z
+        # ''.join(str(x) for x in nb) on a neighbourhood of non-negative ints: the decimal digits of the cells, concatenated
+        # (the model's state_repr; C17)
+        if isinstance(f, ast.Attribute) and f.attr == 'join' and isinstance(f.value, ast.Constant) and f.value.value == '' \
+                and len(e.args) == 1 and isinstance(e.args[0], (ast.GeneratorExp, ast.ListComp)) \
+                and len(e.args[0].generators) == 1 and not e.args[0].generators[0].ifs \
+                and isinstance(e.args[0].generators[0].target, ast.Name) \
+                and isinstance(e.args[0].generators[0].iter, ast.Name) \
+                and env.vars.get(e.args[0].generators[0].iter.id) == NATLIST \
+                and ast.unparse(e.args[0].elt) == 'str(%s)' % e.args[0].generators[0].target.id:
+            return '(state_repr %s)' % e.args[0].generators[0].iter.id, SKEY
         # ''.join(map(str, bits)): the same string as ''.join([str(x) for x in bits])
         if isinstance(f, ast.Attribute) and f.attr == 'join' and isinstance(f.value, ast.Constant) and f.value.value == '' \
                 and len(e.args) == 1 and isinstance(e.args[0], ast.Call) and isinstance(e.args[0].func, ast.Name) \
@@ -1873,6 +2007,53 @@ class FunTrans:
             return None
         _err(e, 'call of a method that writes the object and returns a value is outside the subset')
 
+    def inline_method(self, e, fn, env):
+        root = getattr(self, 'root', self)
+        a = fn.args
+        if fn.decorator_list or a.vararg or a.kwarg or a.kwonlyargs or a.posonlyargs or a.defaults:
+            _err(e, 'method %s has decorators / defaults / *args' % fn.name)
+        if [x.arg for x in a.args][:1] != ['self'] or len(e.args) != len(a.args) - 1:
+            _err(e, 'method %s called with %d arguments' % (fn.name, len(e.args)))
+        stack = getattr(root, 'helper_stack', [])
+        if fn.name in stack or fn.name == self.t['func'] or len(stack) > 4:
+            _err(e, 'recursive (or too deeply nested) method %s' % fn.name)
+        # the method must not write the object
+        for n in ast.walk(fn):
+            if _is_self_attr(n) and isinstance(n.ctx, (ast.Store, ast.Del)):
+                _err(e, 'method %s writes self.%s' % (fn.name, n.attr))
+        args = [self.expr(x, env) for x in e.args]
+        if any(t in (UNUSED, STATE, STORE, ADDS, DICT5) for _, t in args):
+            _err(e, 'method %s called with an argument of a type that cannot be passed on' % fn.name)
+        key = ('self.' + fn.name, tuple(t for _, t in args))
+        cache = root.__dict__.setdefault('helper_cache', {})
+        attrs = [(at, self.attr_info[at]) for at in self.t['attrs'] if self.attr_info.get(at) not in (STORE,)]
+        if key not in cache:
+            name = 'h_' + fn.name.lstrip('_')
+            params = [(p.arg, ty) for p, (_, ty) in zip(a.args[1:], args)]
+            t = dict(self.t, name=name, func=fn.name, params=params, split_default=None)
+            ft = FunTrans(self.mod, t, self.clsnode, self.attr_info, self.consts)
+            ft.root = root
+            ft.mode_effects_ok = root.mode_effects_ok
+            root.helper_stack = stack + [fn.name]
+            try:
+                henv = Env(ft)
+                for pn, ty in params:
+                    henv.vars[_check_ident(fn, pn)] = ty
+                body = ft.block(fn.body, henv, lambda env2: ft.ret('none', 'None'))
+                body, cty = ft.finish(body, fn)
+            finally:
+                root.helper_stack = stack
+            root.subdefs.extend(ft.subdefs)
+            root.subdefs.append(dict(name=name, params=params, attrs=attrs, body=body, cty=cty, lo=fn.lineno,
+                                     hi=fn.end_lineno, generic='', stateful=False, helper=True,
+                                     what='method %s.%s (called from %s)' % (self.t['cls'], fn.name, self.t['func'])))
+            cache[key] = (name, ft.rty, ft.effects)
+        name, rty, eff = cache[key]
+        call = 'src_%s %s' % (name, ' '.join(['self' + at for at, _ in attrs] + [tx for tx, _ in args]))
+        if eff:
+            return self.bind(env, e, call), rty
+        return '(%s)' % call, rty
+
     def inline_helper(self, e, fn, env):
         root = getattr(self, 'root', self)
         a = fn.args
@@ -1967,6 +2148,8 @@ class FunTrans:
     def coerce_assign(self, node, name, env, tx, ty):
         if name in env.vars:
             old = env.vars[name]
+            if old == 'sentinel':
+                return tx, ty          # the local held the sentinel of table.get(..): it could not be read
             if old == ty:
                 return tx, ty
             if old == OPTZ and ty == Z:
@@ -1998,6 +2181,80 @@ class FunTrans:
                         and env.vars.get(X) in (ZLIST, ZVEC) and env.vars.get(W) == Z and self.mod.imports_numpy_as_np:
                     r = self.bind(env, s, 'src_as_strided_windows %s %s' % (X, W))
                     return self.wrap_binds(env, self.ret(GRID2, r))
+        th = self.t.get('threaded')
+        if isinstance(s, ast.If) and isinstance(s.test, ast.UnaryOp) and isinstance(s.test.op, ast.Not) \
+                and isinstance(s.test.operand, ast.Compare) and len(s.test.operand.ops) == 1 \
+                and isinstance(s.test.operand.ops[0], ast.In) and isinstance(s.test.operand.comparators[0], ast.Name) \
+                and env.vars.get(s.test.operand.comparators[0].id) in (DICTK, SDICT):
+            # `not K in D` is `K not in D`
+            t2 = ast.Compare(left=s.test.operand.left, ops=[ast.NotIn()], comparators=s.test.operand.comparators)
+            ast.copy_location(t2, s.test)
+            s2 = ast.If(test=t2, body=s.body, orelse=s.orelse)
+            ast.copy_location(s2, s)
+            return self.block([s2] + list(rest), env, k)
+        if isinstance(s, ast.If) and isinstance(s.test, ast.Compare) and len(s.test.ops) == 1 \
+                and isinstance(s.test.ops[0], (ast.In, ast.NotIn)) and isinstance(s.test.left, ast.Name) \
+                and isinstance(s.test.comparators[0], ast.Name) \
+                and (env.vars.get(s.test.left.id), env.vars.get(s.test.comparators[0].id)) in ((ZLIST, DICTK), (SKEY, SDICT)):
+            # `if key in table: A else: B` (or `not in`), then REST: a match on the lookup; in the branch where the key is
+            # present table[key] is the value found (v_).  table[key] is only translated where its value is known.
+            K, D = s.test.left.id, s.test.comparators[0].id
+            yes, no = (s.body, s.orelse) if isinstance(s.test.ops[0], ast.In) else (s.orelse, s.body)
+            self.fresh += 1
+            v = 'v_%d' % self.fresh
+            y_env, n_env = env.copy(), env.copy()
+            y_env.toplevel = n_env.toplevel = False
+            y_env.known[(D, K)] = v
+            n_env.known.pop((D, K), None)
+            some_branch = self.block(list(yes), y_env, cont)
+            none_branch = self.block(list(no), n_env, cont)
+            look = 'src_dict_lookup' if env.vars[D] == DICTK else 'lookup'       # SDICT: the model's lookup (RuleTables)
+            return '(match %s %s %s with\n| Some %s => %s\n| None => %s\nend)' % (
+                look, env.alias.get(K, K), env.alias.get(D, D), v, some_branch, none_branch)
+        # X = table.get(key, SENTINEL); if X is SENTINEL: A [else: B]; REST   with SENTINEL a module-level `object()`:
+        # a match on the lookup; X is the value found, or (until A assigns it) nothing that can be read
+        if th and isinstance(s, ast.Assign) and len(s.targets) == 1 and isinstance(s.targets[0], ast.Name) \
+                and isinstance(s.value, ast.Call) and isinstance(s.value.func, ast.Attribute) and s.value.func.attr == 'get' \
+                and isinstance(s.value.func.value, ast.Name) and env.vars.get(s.value.func.value.id) == DICTK \
+                and len(s.value.args) == 2 and not s.value.keywords and isinstance(s.value.args[0], ast.Name) \
+                and env.vars.get(s.value.args[0].id) == ZLIST and isinstance(s.value.args[1], ast.Name) \
+                and self.mod.is_sentinel(s.value.args[1].id) and rest and isinstance(rest[0], ast.If) \
+                and isinstance(rest[0].test, ast.Compare) and len(rest[0].test.ops) == 1 \
+                and isinstance(rest[0].test.ops[0], (ast.Is, ast.IsNot)) \
+                and ast.unparse(rest[0].test.left) == s.targets[0].id \
+                and ast.unparse(rest[0].test.comparators[0]) == s.value.args[1].id:
+            X, D, K = _check_ident(s, s.targets[0].id), s.value.func.value.id, s.value.args[0].id
+            if X in env.vars:
+                _err(s, 'the local %s bound to table.get(..) already exists' % X)
+            iff = rest[0]
+            missing, found = (iff.body, iff.orelse) if isinstance(iff.test.ops[0], ast.Is) else (iff.orelse, iff.body)
+            after = list(rest[1:])
+            self.fresh += 1
+            v = 'v_%d' % self.fresh
+            y_env, n_env = env.copy(), env.copy()
+            y_env.toplevel = n_env.toplevel = False
+            y_env.vars[X] = Z
+            y_env.known[(D, K)] = v
+            n_env.vars[X] = 'sentinel'
+            some_branch = '(let %s := %s in\n%s)' % (env.alias.get(X, X), v, self.block(list(found) + after, y_env, k))
+            none_branch = self.block(list(missing) + after, n_env, k)
+            return '(match src_dict_lookup %s %s with\n| Some %s => %s\n| None => %s\nend)' % (
+                env.alias.get(K, K), env.alias.get(D, D), v, some_branch, none_branch)
+        if th and isinstance(s, ast.Assign) and len(s.targets) == 1 and isinstance(s.targets[0], ast.Subscript) \
+                and isinstance(s.targets[0].value, ast.Name) and env.vars.get(s.targets[0].value.id) == DICTK \
+                and isinstance(s.targets[0].slice, ast.Name) and env.vars.get(s.targets[0].slice.id) == ZLIST:
+            D, K = s.targets[0].value.id, s.targets[0].slice.id
+            v, tv = self.expr(s.value, env)
+            if tv != Z:
+                _err(s, 'a value of type %s stored in the table' % tv)
+            self.fresh += 1
+            dv = 'dv_%d' % self.fresh
+            env2 = env.copy()
+            env2.known = {kk: vv for kk, vv in env.known.items() if kk[0] != D}
+            env2.known[(D, K)] = dv            # after the store table[key] is the value stored
+            return self.wrap_binds(env, '(let %s := %s in\n%s)' % (
+                dv, v, self.let(env.alias.get(D, D), '(src_dict_set %s %s %s)' % (
+                    env.alias.get(K, K), dv, env.alias.get(D, D)), cont(env2))))
         # the dictionary idiom in its positive form: `if key in self.D: return self.D[key]` followed by REST is
         # `if key not in self.D: REST` / `return self.D[key]` provided REST returns or raises on every path (checked:
         # a REST that can fall through is rejected by the idiom)
@@ -2095,8 +2352,9 @@ class FunTrans:
                 _err(s, 'multiple assignment targets')
             tg = s.targets[0]
             if isinstance(tg, ast.Name):
-                if tg.id in COQ_KEYWORDS and re.match(r'^[a-z]+$', tg.id):
-                    env.alias[tg.id] = 'py_' + tg.id      # a Python local named like a Coq keyword (e.g. `end`)
+                if (tg.id in COQ_KEYWORDS or tg.id in TEMPLATE_NAMES) and re.match(r'^[A-Za-z_]+$', tg.id) \
+                        and not tg.id.startswith('_'):
+                    env.alias[tg.id] = 'py_' + tg.id      # a Python local named like a Coq keyword / template identifier
                     name = tg.id
                 else:
                     name = _check_ident(tg, tg.id)
@@ -2106,6 +2364,7 @@ class FunTrans:
                 tx, ty = self.coerce_assign(s, name, env, tx, ty)
                 env2 = env.copy()
                 env2.vars[name] = ty
+                env2.known = {kk: vv for kk, vv in env.known.items() if name not in kk}
                 env2.elts.pop(name, None)
                 if isinstance(s.value, (ast.Tuple, ast.List)):
                     env2.elts[name] = self.zlist_literal(s.value, env)[1]
@@ -2672,6 +2931,71 @@ class ModuleInfo:
                         self.imports_numpy_as_np = True
         self.results = {}      # target name -> result type (of already translated targets)
 
+    def is_sentinel(self, name):
+        """NAME = object() at module level, the only binding of NAME in the module"""
+        binds = [n for n in ast.walk(self.tree) if isinstance(n, ast.Name) and n.id == name
+                 and isinstance(n.ctx, (ast.Store, ast.Del))]
+        tops = [st for st in self.tree.body if isinstance(st, ast.Assign) and len(st.targets) == 1
+                and isinstance(st.targets[0], ast.Name) and st.targets[0].id == name
+                and ast.unparse(st.value) == 'object()']
+        other = any((isinstance(n, ast.Global) and name in n.names) or
+                    (isinstance(n, (ast.FunctionDef, ast.ClassDef)) and n.name == name) or
+                    (isinstance(n, ast.arg) and n.arg == name) or
+                    (isinstance(n, (ast.Import, ast.ImportFrom)) and any((a.asname or a.name) == name for a in n.names))
+                    for n in ast.walk(self.tree))
+        return len(binds) == 1 and len(tops) == 1 and not other
+
+    def module_constant(self, name):
+        """NAME = <integer constant expression> at module level, the only binding of NAME in the module (no other
+        assignment, no `global NAME`, not a function / class / import name): its value"""
+        binds = []
+        for n in ast.walk(self.tree):
+            if isinstance(n, ast.Name) and n.id == name and isinstance(n.ctx, (ast.Store, ast.Del)):
+                binds.append(n)
+            if isinstance(n, ast.Global) and name in n.names:
+                return None
+            if isinstance(n, (ast.FunctionDef, ast.ClassDef)) and n.name == name:
+                return None
+            if isinstance(n, ast.ImportFrom) and n.level == 1 and n.module and n in self.tree.body \
+                    and any(a.name == name and a.asname is None for a in n.names) and not getattr(self, '_sib', False):
+                # from .sibling import NAME: the constant of the sibling module (NAME must not be bound otherwise here)
+                others = [m for m in ast.walk(self.tree) if isinstance(m, ast.Name) and m.id == name
+                          and isinstance(m.ctx, (ast.Store, ast.Del))]
+                if others:
+                    return None
+                try:
+                    sib = ModuleInfo(os.path.dirname(os.path.dirname(self.path)), n.module + '.py')
+                except (OSError, SyntaxError):
+                    return None
+                sib._sib = True
+                return sib.module_constant(name)
+            if isinstance(n, (ast.Import, ast.ImportFrom)) and any((a.asname or a.name) == name for a in n.names):
+                return None
+            if isinstance(n, ast.arg) and n.arg == name:
+                return None
+        tops = [st for st in self.tree.body if isinstance(st, ast.Assign) and len(st.targets) == 1
+                and isinstance(st.targets[0], ast.Name) and st.targets[0].id == name]
+        if len(binds) != 1 or len(tops) != 1:
+            return None
+
+        def ev(x):
+            if _is_int_const(x):
+                return x.value
+            if isinstance(x, ast.UnaryOp) and isinstance(x.op, ast.USub):
+                return -ev(x.operand)
+            if isinstance(x, ast.BinOp) and isinstance(x.op, (ast.Add, ast.Sub, ast.Mult, ast.Pow)):
+                a, b = ev(x.left), ev(x.right)
+                if isinstance(x.op, ast.Pow):
+                    if not 0 <= b <= 64:
+                        raise ValueError
+                    return a ** b
+                return a + b if isinstance(x.op, ast.Add) else a - b if isinstance(x.op, ast.Sub) else a * b
+            raise ValueError
+        try:
+            return ev(tops[0].value)
+        except (ValueError, RecursionError):
+            return None
+
     def has_function(self, name):
         return any(isinstance(n, ast.FunctionDef) and n.name == name for n in self.tree.body)
 
@@ -2770,9 +3094,14 @@ def _check_grain_additions(mod, clsnode, attr_info):
         for fn in clsnode.body:
             if not isinstance(fn, ast.FunctionDef) or fn.name in ('__init__', '__call__'):
                 continue
+            iters = set()
+            for n in ast.walk(fn):
+                if isinstance(n, (ast.For, ast.comprehension)) and _is_self_attr(n.iter, '_grain_additions'):
+                    iters.add(id(n.iter))
             for n in ast.walk(fn):
                 if _is_self_attr(n, '_grain_additions'):
-                    if fn.name != 'add_grain':
+                    # another method may only ITERATE over the list (for / comprehension / generator): a pure read
+                    if fn.name != 'add_grain' and id(n) not in iters:
                         ok = False
         add = [n for n in clsnode.body if isinstance(n, ast.FunctionDef) and n.name == 'add_grain']
         if len(add) == 1 and [a.arg for a in add[0].args.args] == ['self', 'cell_index', 'timestep']:
@@ -2941,7 +3270,11 @@ def translate_target(mod, target):
     env = Env(ft)
     env.toplevel = True
     for p, ty in target['params']:
-        env.vars[_check_ident(fn, p)] = ty
+        if p in TEMPLATE_NAMES and re.match(r'^[A-Za-z_]+$', p) and not p.startswith('_'):
+            env.alias[p] = 'py_' + p
+        else:
+            _check_ident(fn, p)
+        env.vars[p] = ty
 
     global _CUR_ATTR_LOCALS
     _CUR_ATTR_LOCALS = dict(target.get('attr_locals') or {})
@@ -2959,7 +3292,9 @@ def translate_target(mod, target):
     finally:
         _CUR_ATTR_LOCALS = {}
     body, cty = ft.finish(body, fn)
-    main = dict(name=target['name'], params=[(p, ty) for p, ty in target['params'] if ty != UNUSED],
+    main = dict(name=target['name'],
+                params=([('rs_', INNERST)] if target.get('threaded') else []) +
+                       [(env.alias.get(p, p), ty) for p, ty in target['params'] if ty not in (UNUSED, CALLP)],
                 attrs=[(at, attr_info[at]) for at in target['attrs'] if attr_info[at] not in ()],
                 body=body, cty=cty, lo=fn.lineno, hi=fn.end_lineno, generic=target.get('generic', ''),
                 stateful=ft.stateful,
@@ -3138,7 +3473,8 @@ HEADER = ('(* GENERATED by harness/translate.py from the Python source of the ce
 
 
 PROP_IMPORTS = {'C08': 'From CPL Require Import Model.Totalistic.\n',
-                'C16': 'From CPL Require Import Model.EntropyExact.\n'}
+                'C16': 'From CPL Require Import Model.EntropyExact.\n',
+                'C17': 'From CPL Require Import Model.RuleTables.\n'}
 
 
 def build(only=None):
@@ -3227,7 +3563,10 @@ PROP_FUNS = {
     'C01': ['src_index_strides'],
     'C02': ['src_vn_mask', 'src_axis_indices'],
     'C10': ['src_block_indices'],
-    'C03': ['src_memo_key', 'src_memo_split'],
+    'C03': ['src_memo_key', 'src_memo_split', 'src_get_memoized'],
+    'C09': ['src_get_memoized', 'src_get_memoized2d'],
+    'C04': ['src_get_memoized'],
+    'C17': ['src_table_rule'],
     'C08': ['src_totalistic_rule', 'src_totalistic_rule_call'],
     'C16': ['src_shannon_symbols', 'src_shannon_count', 'src_joint_indicator', 'src_ami_guard', 'src_ami_left',
             'src_ami_right'],
@@ -3264,11 +3603,29 @@ def _first_stale(pid, upto):
             return i
         if i > 0 and _mt(vo) < _mt(ch[i - 1] + 'o'):
             return i
+        if i == 0 and os.path.exists(os.path.join(COQ, 'gen/GenFuns_Prelude.vo')) and \
+                _mt(vo) < _mt('gen/GenFuns_Prelude.vo'):
+            return i
         if i == 2:
             for dep in EXTRA_DEPS.get(pid, []):
                 if os.path.exists(os.path.join(COQ, dep + 'o')) and _mt(vo) < _mt(dep + 'o'):
                     return i
     return None
+
+
+STATIC_DEPS = ['gen/GenFuns_Prelude.vo', 'GenProps/GenFunsClamp.vo', 'GenProps/GenFunsExt.vo', 'GenProps/GenFunsMemo.vo']
+
+
+def _deps_digest():
+    """digest of the compiled files every chain may depend on besides its own: the stashed .vo files are valid only
+    against exactly these (a .vo compiled against another Prelude.vo is rejected by coqc: inconsistent assumptions)"""
+    h = hashlib.sha256(PRELUDE.encode())
+    for rel in STATIC_DEPS:
+        try:
+            h.update(open(os.path.join(COQ, rel), 'rb').read())
+        except OSError:
+            h.update(b'absent:' + rel.encode())
+    return h.hexdigest()
 
 
 def _stash_save(pid):
@@ -3277,7 +3634,7 @@ def _stash_save(pid):
     for rel in _stash_files(pid):
         shutil.copy2(os.path.join(COQ, rel), os.path.join(d, rel.replace('/', '__')))
     # the .vo files are only valid against the template helpers they were compiled with
-    open(os.path.join(d, 'prelude_sha'), 'w').write(hashlib.sha256(PRELUDE.encode()).hexdigest())
+    open(os.path.join(d, 'prelude_sha'), 'w').write(_deps_digest())
 
 
 def _stash_current(pid):
@@ -3301,7 +3658,7 @@ def _stash_restore(pid):
     if not all(os.path.exists(os.path.join(d, r.replace('/', '__'))) for r in rels):
         return
     try:
-        if open(os.path.join(d, 'prelude_sha')).read() != hashlib.sha256(PRELUDE.encode()).hexdigest():
+        if open(os.path.join(d, 'prelude_sha')).read() != _deps_digest():
             return            # stashed against other template helpers: restoring would leave inconsistent .vo files
     except OSError:
         return
@@ -3346,13 +3703,26 @@ def pre_hook(ctx, pid, upto=4):
             return
         if first is None:
             first = 1          # translation error of one of this property's functions, files otherwise fresh
-        for rel in chain(pid)[first:upto]:
-            rc, out, err = driver.coqc(rel, timeout=900)
-            st['recompiled'].append(rel)
-            if rc != 0:
-                st['failed'] = rel
-                st['err'] = (err or out)[-2500:]
-                break
+        def compile_from(k0):
+            for rel in chain(pid)[k0:upto]:
+                rc, out, err = driver.coqc(rel, timeout=900)
+                st['recompiled'].append(rel)
+                if rc != 0:
+                    return rel, (err or out)[-2500:]
+            return None, ''
+        bad, errtxt = compile_from(first)
+        if bad is not None and 'inconsistent assumptions' in errtxt:
+            # some .vo on the chain (or the Prelude) was compiled against other dependencies (a restore, a concurrent
+            # run): rebuild the Prelude and the whole chain once before declaring the obligation failed
+            st['recompiled'].append('(rebuild after inconsistent assumptions)')
+            driver.coqc('gen/GenFuns_Prelude.v', timeout=300)
+            for dep in STATIC_DEPS[1:]:
+                if os.path.exists(os.path.join(COQ, dep[:-1])):
+                    driver.coqc(dep[:-1], timeout=900)
+            bad, errtxt = compile_from(0)
+        if bad is not None:
+            st['failed'] = bad
+            st['err'] = errtxt
         if st['failed'] is None and upto == 4 and not mine:
             _stash_save(pid)
         if st['failed'] is not None and os.path.isdir(_stash_dir(pid)):
